@@ -45,36 +45,24 @@ def keep_set(facts):
     for it in facts.items("anstream"):
         if it["dk"] == "Const" and "value" in it:
             consts[it["path"]] = it["value"]
-    e = hir.simp(b["hir"])
-    while e.get("k") == "block":
-        st = hir.stmts_of(e)
-        if len(st) != 1:
-            raise Unrecognised("is_printable_bytes: a single boolean expression expected")
-        e = hir.simp(st[0])
+    # truth table of the predicate over its whole domain (16 actions x 256 bytes) by abstract evaluation of its body: an
+    # or-chain, a match on the action, early returns or matches! all denote the same set
+    import abseval
+    ev = abseval.Evaluator(facts, "anstream", {"core::num::<impl u8>::is_ascii_whitespace": lambda a: ("bool", a[0][0] == "int" and a[0][1] in ASCII_WS)})
+    ev.consts = consts
     K = set()
     for act in vt500.ACTIONS:
         for byte in range(256):
-            def atom(n, act=act, byte=byte):
-                n = hir.simp(n)
-                if n.get("k") == "bin" and n.get("op") in ("Eq", "Ne"):
-                    l, r = hir.simp(n["l"]), hir.simp(n["r"])
-                    if hir.is_local(l, a_name) and hir.is_def(r) and (hir.def_path(r) or "").startswith(cp.ACTION + "::"):
-                        v = act == hir.def_path(r).split("::")[-1]
-                        return v if n["op"] == "Eq" else not v
-                    if hir.is_local(l, b_name):
-                        c = hir.const_fold(r, consts)
-                        if c is not None:
-                            return (byte == c) if n["op"] == "Eq" else (byte != c)
-                if hir.is_call(n, "core::num::<impl u8>::is_ascii_whitespace") and hir.is_local(n["args"][0], b_name):
-                    return byte in ASCII_WS
-                if n.get("k") == "match" and hir.is_local(n["scrut"], b_name):
-                    # matches!(byte, pats)
-                    for arm in n["arms"]:
-                        s = hir.pat_ints(arm["pat"])
-                        if s is None or byte in s:
-                            return hir.lit_val(arm["body"])
-                return None
-            if hir.bool_eval(e, atom):
+            env = abseval.Env()
+            env[a_name] = ("enum", cp.ACTION + "::" + act)
+            env[b_name] = ("int", byte)
+            try:
+                v = ev.ev(b["hir"], env)
+            except abseval.Return as r:
+                v = r.v
+            if v[0] != "bool":
+                raise Unrecognised(f"is_printable_bytes does not evaluate to a boolean for ({act}, {byte:#x}): {v}")
+            if v[1]:
                 K.add((act, byte))
     return b, K
 
